@@ -370,6 +370,9 @@ def check(run, fx, tier, floors=True):
     if floors or any(b.root.endswith("Woff2TableProvider::new") for b in fx.bodies):
         t09_loca_woff2(run, fx)
     t09_stale(run, fx)
+    if floors or fx.body("subset::create_hmtx_table") is not None:
+        import rules_C07
+        rules_C07.t07_hmtx(run, fx)
     if floors or fx.adt("tables::glyf::CompositeGlyphs") is not None:
         # the glyf composite codec is shared: reader (used by the WOFF2 reconstruction) and writer must agree on the instruction flag
         import rules_C15
